@@ -539,7 +539,9 @@ func (x *abortExec) got(q *greq) int64 { return x.l.Stream(q.sid).Got }
 
 // finish: the body of q is complete; answer and wait for the client.
 func (x *abortExec) finish(q *greq, name string) *finding {
-	if f := x.arrive("T/abort/queued-data-not-delivered", func() string { return fmt.Sprintf("%s (stream %d): %d of %d body bytes arrived, END_STREAM=%v, although the windows allow all of it", name, q.sid, x.got(q), q.total, x.l.Stream(q.sid).Ended) },
+	if f := x.arrive("T/abort/queued-data-not-delivered", func() string {
+		return fmt.Sprintf("%s (stream %d): %d of %d body bytes arrived, END_STREAM=%v, although the windows allow all of it", name, q.sid, x.got(q), q.total, x.l.Stream(q.sid).Ended)
+	},
 		func() bool { s := x.l.Stream(q.sid); return s.Got >= q.total && s.Ended }); f != nil {
 		return f
 	}
@@ -610,7 +612,9 @@ func runAbort(c *abortCase) (res *finding) {
 			x.logf("round %d: B%d = stream %d (%s, body %d+%d+%d, content-length declared %v)", rn, i+1, q.sid, w.Mode, w.Pre, w.Chunk, w.Rest, w.CL)
 			if w.Pre > 0 {
 				q.body.open(w.Pre, false)
-				if f := x.arrive("T/abort/queued-data-not-delivered", func() string { return fmt.Sprintf("round %d: the first %d body bytes of B%d (stream %d) did not arrive although the windows allow them", rn, w.Pre, i+1, q.sid) },
+				if f := x.arrive("T/abort/queued-data-not-delivered", func() string {
+					return fmt.Sprintf("round %d: the first %d body bytes of B%d (stream %d) did not arrive although the windows allow them", rn, w.Pre, i+1, q.sid)
+				},
 					func() bool { return x.got(q) >= w.Pre }); f != nil {
 					return f
 				}
@@ -633,7 +637,9 @@ func runAbort(c *abortCase) (res *finding) {
 				x.ensureStream(A.sid, burn)
 				A.body.open(burn, false)
 				aSent += burn
-				if f := x.arrive("T/abort/queued-data-not-delivered", func() string { return fmt.Sprintf("round %d: %d more bytes on A (stream %d) did not arrive although the windows allow them", rn, burn, A.sid) },
+				if f := x.arrive("T/abort/queued-data-not-delivered", func() string {
+					return fmt.Sprintf("round %d: %d more bytes on A (stream %d) did not arrive although the windows allow them", rn, burn, A.sid)
+				},
 					func() bool { return x.got(A) >= aSent }); f != nil {
 					return f
 				}
@@ -736,7 +742,9 @@ func runAbort(c *abortCase) (res *finding) {
 		// 4. go on reading
 		pc.release()
 		x.logf("round %d: server reads again", rn)
-		if f := x.arrive("T/abort/queued-data-not-delivered", func() string { return fmt.Sprintf("round %d: A (stream %d) has delivered %d of %d bytes although the windows allow all of them", rn, A.sid, x.got(A), aSent) },
+		if f := x.arrive("T/abort/queued-data-not-delivered", func() string {
+			return fmt.Sprintf("round %d: A (stream %d) has delivered %d of %d bytes although the windows allow all of them", rn, A.sid, x.got(A), aSent)
+		},
 			func() bool { return x.got(A) >= aSent }); f != nil {
 			return f
 		}
